@@ -107,3 +107,19 @@ package webp
 //@   trusted
 //@   modifies nothing
 //@   ensures img != nil ==> result != nil
+//
+// ---- C19: the alpha scan reads only pixels inside the image bounds ----
+//
+// Every byte imageHasAlpha reads from an *image.NRGBA / *image.RGBA buffer is
+// the alpha byte of a pixel of the current row y (Min.Y <= y < Max.Y) among
+// the first w pixels of that row, so nothing outside the bounds (stride
+// padding, parent rows of a sub-image) can influence the result.
+//@ func imageHasAlpha
+//@   property C19
+//@   requires img != nil && dynptr(img) != 0 && specBoundsSane(img)
+//@   loop 0: invariant b.Min.Y <= y
+//@   loop 2: invariant b.Min.Y <= y
+//@   loop 1: invariant 0 <= x && off == (y-b.Min.Y)*nrgba.Stride + 3 + 4*x && b.Min.Y <= y && y < b.Max.Y
+//@   loop 3: invariant 0 <= x && off == (y-b.Min.Y)*rgba.Stride + 3 + 4*x && b.Min.Y <= y && y < b.Max.Y
+//@   index nrgba.Pix: assert b.Min.Y <= y && y < b.Max.Y && idx - (y-b.Min.Y)*nrgba.Stride >= 0 && idx - (y-b.Min.Y)*nrgba.Stride < 4*w && (idx - (y-b.Min.Y)*nrgba.Stride) % 4 == 3
+//@   index rgba.Pix: assert b.Min.Y <= y && y < b.Max.Y && idx - (y-b.Min.Y)*rgba.Stride >= 0 && idx - (y-b.Min.Y)*rgba.Stride < 4*w && (idx - (y-b.Min.Y)*rgba.Stride) % 4 == 3
